@@ -219,6 +219,22 @@ func runC10(b *runner.Batch) {
 	b.Hit("default-renewal-of-a-name-with-more-than-nine-years-to-go")
 	do(e.opRegister("aa.org", e.users[0].hash, 100000), []int{0}, false)
 	e.accountingSweep()
+	// expirations need not grow towards the leaf: every other history starts with a chain under the short-lived TLD whose
+	// closest parents outlive the names below them (aa.org 100000 s >= cc.aa.org 30000 s >= ee.cc.aa.org 25000 s > org
+	// 20000 s); at the TLD's expiry none of them answers any more (seeded change C10-11: the walk up the chain cut short
+	// when the closest parent outlives the name)
+	if b.Index%2 == 0 {
+		do(e.opRegister("cc.aa.org", e.users[0].hash, 30000), []int{0}, false)
+		do(e.opRegister("ee.cc.aa.org", e.users[1].hash, 25000), []int{1, 0}, false)
+		if st := e.m.names["org"]; st != nil && e.m.names["ee.cc.aa.org"] != nil && e.m.names["ee.cc.aa.org"].exp > st.exp {
+			for _, nm := range []string{"aa.org", "cc.aa.org", "ee.cc.aa.org"} {
+				e.lifecycleReads(nm, st.exp-1, "exp-1")
+				e.lifecycleReads(nm, st.exp, "exp")
+				e.lifecycleReads(nm, st.exp+1, "exp+1")
+			}
+			b.Hit("names-outliving-an-upper-ancestor-read-at-its-expiry")
+		}
+	}
 	// boundary instants of aa.org's parent: the TLD org expires before aa.org does
 	nops := 100
 	if b.Thorough() {
